@@ -4,9 +4,9 @@ import kcommon as kc
 
 PID = "C08"
 MODEL_TARGETS = ["Proofs/Eval.vo", "Amount/F64.vo", "Amount/Dec.vo", "Gen/Catalogue.vo"]
-PROOF_TARGETS = ["Props/C08.vo", "Pinned/C08.vo"]
-PROPS = "Props/C08.v"
-COQCHK = ["QV.Props.C08"]
+PROOF_TARGETS = ["Props/C08.vo", "Pinned/C08.vo", "Props/Programs.vo", "Pinned/Programs.vo"]
+PROPS = ["Props/C08.v", "Props/Programs.v"]
+COQCHK = ["QV.Props.C08", "QV.Props.Programs"]
 TRUSTED_BASE = [
     "Coq 8.16.1 kernel (coqc; vm_compute for the finite catalogue facts); coqchk in the thorough tier",
     "translator rs2j+j2v: struct shapes, new/amount/unit, Mul<Unit>/Mul<AmountT>/Div<AmountT> bodies are translated from the repository's own codegen() output (Gen/Kernels.v); every generated impl is checked to be an instance of its template; the One/AmountT impls are translated from src/lib.rs",
